@@ -351,6 +351,18 @@ pub fn generate(g: &GenCtx, seed: u64) -> Scenario {
             if siblings_on && !g.families.is_empty() && rng.pct(22) {
                 // near-identical calls back to back: A, A', (A'',) A
                 let f = &g.families[rng.below(g.families.len() as u64) as usize];
+                if rng.pct(20) {
+                    // alternation: A B (C) A B (C) ... - two or three entries competing for one
+                    // cache line / "last value" slot
+                    let k = rng.range(2, 3) as usize;
+                    let members: Vec<u32> = (0..k).map(|_| intern(&mut sc, *rng.pick(f))).collect();
+                    for _ in 0..rng.range(2, 12) {
+                        for m in &members {
+                            steps.push(Step { op: *m, repeat: 1, rekey: None });
+                        }
+                    }
+                    continue;
+                }
                 let a = intern(&mut sc, *rng.pick(f));
                 steps.push(Step { op: a, repeat: 1, rekey: None });
                 for _ in 0..rng.range(1, 3) {
